@@ -1,14 +1,14 @@
 SPECIFICATION Spec
 CONSTANTS
-  Confs <- Shapes
-  InitRegs <- OneShapeRegs
-  ScopeNames = {"a", "ab"}
-  MaxScopeDepth = 3
-  MaxStack = 4
+  Confs <- ScopeConfs
+  InitRegs <- ScopeRegs
+  ScopeNames = {"a", "b", "ab"}
+  MaxScopeDepth = 4
+  MaxStack = 6
   BindVals <- BV12
-  MaxBindings = 5
+  MaxBindings = 3
   Enabled = {"Bind", "EnterScope", "ExitScope", "Call"}
-  NameOrder <- Names6
+  NameOrder <- NamesPQ
   HookUniverse = {}
   BindApis = {"tuple"}
   FreshConfs = {}
